@@ -27,7 +27,6 @@ parser recovers it (property of the toml crate).
 """
 from . import C07_helpers as H
 from .lib import serde_schema as S
-from .lib.discard import result_fates, verdict
 from .lib.guards import conditions
 from .lib.paths import strip
 from .lib.value import vstr, walk
@@ -74,7 +73,7 @@ def run(ctx, rep):
     rep.not_decided = ['validity of the emitted TOML for every string payload and recovery by an independent parser (toml crate)']
     n = 0
     for t, want in SPEC_KEYS.items():
-        se = S.ser_struct(prog, sl, t)
+        se = H.ser_struct(prog, sl, t)
         a = prog.adts.get(t)
         where = '%s:%s' % (a['file'], a['line']) if a else '-'
         if se is None or se['kind'] != 'struct':
@@ -118,7 +117,7 @@ def run(ctx, rep):
             rep.check(ok, 'R2', subj, where, why, 'skip/default mismatch for key %s: %s' % (key, why))
     rep.floor('R1', 'serialized_structs', n)
     for t, want in SPEC_ENUMS.items():
-        se = S.ser_struct(prog, sl, t)
+        se = H.ser_struct(prog, sl, t)
         a = prog.adts.get(t)
         where = '%s:%s' % (a['file'], a['line']) if a else '-'
         got = se['variants'] if se else None
@@ -195,25 +194,19 @@ def run(ctx, rep):
     # fs::write(path, s) or File::create(path)?.write_all(s.as_bytes()), directly or in a private helper
     from .lib.effects import Effects
     E5 = Effects(prog, sl)
-    fw = [e for e in E5.expand(w, 'must') if e.kind == 'WRITE']
-    ok = len(fw) == 1 and len(fw[0].args or ()) >= 2
-    if ok:
-        e = fw[0]
-        dv = e.args[1]
-        while dv[0] == 'call' and dv[1].endswith(('::as_bytes', '::as_str', '::as_ref')) and dv[2]:
-            dv = dv[2][0]
-        top = e.chain[0] if e.chain else e.call
-        ok = dv[0] == 'unwrap' and strip(dv)[0] == 'call' and strip(dv)[1] == 'toml::to_string' and strip(strip(dv)[2][0])[0] == 'param' \
-            and strip(e.path)[0] == 'param' and strip(e.path)[2] == 1 and verdict(result_fates(prog, top.fn, top.call if hasattr(top, 'call') else top)) == 'ok'
+    ok = H.writer_contract(prog, sl, E5, w, path_idx=1)
     rep.check(ok, 'R5', 'write_toml_file', '%s:%d' % (w.file, w.line), 'fs::write(path, toml::to_string(value)?)?', 'write_toml_file is not to_string + write with both errors propagated')
     # all TOML text produced in libcnb / libcnb_common comes from write_toml_file (or the exec.d writer)
-    # (a serialising call inside a private helper / closure belongs to the public functions it is reachable from)
+    # (a serialising call inside a private helper / closure belongs to the public functions it is reachable from; a
+    # function that itself meets the writer contract above — exactly one checked write of toml::to_string(parameter)?
+    # at a path parameter and nothing else — is one more spelling of write_toml_file, see H.toml_writers)
     allowed = ['libcnb::exec_d::write_exec_d_program_output', 'libcnb_common::toml_file::write_toml_file']
-    users = sorted({o for f in prog.fns.values() if f.crate in ('libcnb', 'libcnb_common') and not f.path.startswith('libcnb::tracing')
-                    for c in f.calls if c.is_('toml::to_string', 'toml::to_string_pretty', 'toml::ser::to_string')
-                    for o in H.owners(prog, c.fn, allowed)})
+    users, extra = H.toml_writers(prog, sl, E5, allowed)
+    for p_ in extra:
+        rep.analysed(prog.fns[p_])
     rep.check(users == allowed, 'R5', 'single-writer', '-',
-              'TOML is serialised only in write_toml_file and the exec.d writer', 'TOML is serialised in %s' % users)
+              'TOML is serialised only in write_toml_file%s and the exec.d writer' % (''.join(', %s (same contract)' % p_.split('::')[-1] for p_ in extra)),
+              'TOML is serialised in %s' % users)
     ex = prog.fn('libcnb::exec_d::write_exec_d_program_output')
     rep.analysed(ex)
     # every path of the exec.d writer opens raw fd 3 and no path opens another raw fd (directly or in a private helper)
